@@ -80,6 +80,12 @@ def run(ctx):
         raise H.Infra("ChunkGeomLemmas: a tiling lemma no longer holds")
     if ctx.apalache("ChunkGeomLemmas.tla", "Init", "BadCover", 0) != "error":
         raise H.Infra("ChunkGeomLemmas: the wrong cover lemma is not refuted - the proof is vacuous")
+    # the chunk index at design level: nodes of bounded capacity under as many levels as it takes reach every chunk; the
+    # pinned code (one leaf, the count modulo the field) loses chunks from Cap + 1 on (repaired in a2aecef)
+    ctx.model_check("ChunkIndex.tla", "ChunkIndex_design.cfg", workers=2, timeout=600)
+    r = ctx.tlc("ChunkIndex.tla", "ChunkIndex_code_singleleaf.cfg", workers=1, timeout=300)
+    if r.ok or not r.violated:
+        raise H.Infra("ChunkIndex with CODE_SingleLeaf no longer yields a counterexample")
     return run_logical(
         ctx, LEVEL, models,
         extra_cases=many_chunks() + random_big(ctx, 6000 if thorough else 800) + boundaries(),
